@@ -157,6 +157,8 @@ def reproduces (f : Field) : SVal → LV → Bool
     else isStringy f.dataType && (match r with | .str _ => true | _ => false)
   | .char c, r =>
     if isIntType f.dataType then r == .int (Int.ofNat c)
+    else if f.dataType == .float64 then r == .float (Float.ofInt (Int.ofNat c)).toBits.toNat
+    else if f.dataType == .float32 then r == .float (Float32.ofInt (Int.ofNat c)).toFloat.toBits.toNat
     else isStringy f.dataType && (match r with | .str _ => true | _ => false)
   | .str s, r =>
     if isStringy f.dataType then r == .str s
